@@ -44,6 +44,11 @@ func (h *Handler) HandleOpenDir(ctx *Context, path string) bool {
 	info, err := handle.Stat()
 	if err != nil {
 		log.WarnContext(ctx, "Stat failed", logutil.ErrorAttr(err))
+
+		if err := handle.Close(); err != nil {
+			log.WarnContext(ctx, "Close of just opened dir failed", logutil.ErrorAttr(err))
+		}
+
 		return false
 	}
 
